@@ -351,6 +351,12 @@ func (e *ruleEnv) filterFor(field, op, vclass string) (arg string, it astItem, i
 		case "high":
 			v := uint32(65536 + r.Intn(1000000))
 			return mk(strconv.Itoa(int(v)), numItem(field, op, v))
+		case "octal": // numbers are read as strtoul(.., 0) reads them: a leading 0 means octal, 0x hexadecimal
+			v := uint32(1000 + r.Intn(2000))
+			return mk("0"+strconv.FormatUint(uint64(v), 8), numItem(field, op, v))
+		case "hex":
+			v := uint32(1000 + r.Intn(2000))
+			return mk("0x"+strconv.FormatUint(uint64(v), 16), numItem(field, op, v))
 		default:
 			n := msgNames[r.Intn(len(msgNames))]
 			return mk(n, astItem{T: "F", LHS: field, Op: op, VK: "msgname", Name: n, Str: []int{}})
